@@ -1182,7 +1182,14 @@ func (c Case) sig() string {
 // table when the defects are fixed; open entries of known_findings.json
 // (r.OpenClass) add to it.
 var knownOpen = map[string]bool{
-	// (empty: the six classes found when this check was first run were fixed in /repo)
+	// (the six classes found when this check was first run were fixed in /repo)
+	//
+	// found when the Node family was added (2 root causes, one repair: /tmp/hunt-C11/chain-temp-names/fix.diff);
+	// delete these four lines when it is applied - the witnesses below then run as ordinary regression cases
+	"clean-failure/call-after-fields-then-member":            true,
+	"wrong-value/call-after-fields-root-named-like-a-field":  true,
+	"clean-failure/variable-named-like-member":               true,
+	"wrong-value/variable-named-like-member-as-any-argument": true,
 }
 
 // strictMode: no class is tolerated (used only while the witnesses below are
@@ -1223,6 +1230,14 @@ var witnesses = []struct {
 		path("r", st("Mids"), at(vr(lit(-1))), st("Name"))},
 	{"panic/method-on-nil-pointer", "a method call on a nil pointer / nil callee panics in reflect (AF-19)",
 		path("r", st("NilMid"), call("Hello"))},
+	{"clean-failure/call-after-fields-then-member", "x[i].F.M().G and x.A().F.M().G fail with 'unknown identifier': the result of a call that has receiver fields of its own and sits below an index or a call is bound under the printed form of the function at run time, but looked up under the printed form it had when it was parsed",
+		Case{Fam: "node", Root: "n", Steps: []Step{st("Kids"), at(lit(0)), st("Next"), call("Kid", lit(1)), st("Name")}}},
+	{"wrong-value/call-after-fields-root-named-like-a-field", "the same, when the root variable is called like the field: the lookup finds the result of the OUTER call: Next.Kid(0).Next.Kid(1).Name gives Next.Kid(0).Name",
+		Case{Fam: "node", Root: "Next", Steps: []Step{call("Kid", lit(0)), st("Next"), call("Kid", lit(1)), st("Name")}}},
+	{"clean-failure/variable-named-like-member", "n.Kids[0].Kids[1].M[Kids] with a template variable Kids: below the second level the indexed element is bound under the bare member name in the scope the rest of the path is evaluated in, and hides the variable",
+		Case{Fam: "node", Root: "n", Steps: []Step{st("Kids"), at(lit(0)), st("Kids"), at(lit(1)), st("M"), at(Arg{S: "b", Var: true, N: "Kids"}), st("Name")}}},
+	{"wrong-value/variable-named-like-member-as-any-argument", "the same with the variable as an argument of type interface{}: the method receives the indexed element instead of the variable",
+		Case{Fam: "node", Root: "n", Steps: []Step{st("Kids"), at(lit(0)), st("Kids"), at(lit(1)), call("Echo", Arg{Int: true, I: 1, Var: true, N: "Kids"})}}},
 }
 
 func replayWitnesses(r *vk.Run) {
@@ -1304,11 +1319,76 @@ func similarIndexedNames(seg []Step, base string) bool {
 	return false
 }
 
+// callAfterFields: a call with receiver fields of its own below an index or a
+// call, and something selected from its result: x[i].F.M().G, x.A().F.G.M()[i].
+var reCallAfterFields = regexp.MustCompile(`[XM]F+M.`)
+
+func callAfterFields(seg []Step, _ string) bool { return reCallAfterFields.MatchString(segSig(seg)) }
+
+func callAfterFieldsRootIsField(seg []Step, base string) bool {
+	if !callAfterFields(seg, base) {
+		return false
+	}
+	for _, s := range seg {
+		if s.F == base {
+			return true
+		}
+	}
+	return false
+}
+
+// shadowedVars lists the variable arguments of the expression that have the
+// name under which plush binds an indexed element or a call result while it
+// evaluates the rest of the path: the bare member name X of `].X[i].` and the
+// bare method name M of `].M().` / `).M().` - at the second level and below;
+// the first level is bound under a dotted name no variable can have.
+func shadowedVars(seg []Step) (out []struct{ step, arg int }) {
+	bound := map[string]bool{}
+	prevBinding := -1 // step of the previous binding point
+	for i, s := range seg {
+		for ai, a := range s.A {
+			if a.Var && bound[a.varName()] {
+				out = append(out, struct{ step, arg int }{i, ai})
+			}
+		}
+		last := i == len(seg)-1
+		switch {
+		case s.X && !last && !seg[i+1].X:
+			if prevBinding >= 0 && i == prevBinding+2 && seg[i-1].F != "" {
+				bound[seg[i-1].F] = true
+			}
+			prevBinding = i
+		case s.X: // a[i][j]: no member is selected from a[i]
+		case s.M != "" && !last && !seg[i+1].X: // (f()[i].x binds the element under a name that has parentheses in it)
+			if prevBinding >= 0 && i == prevBinding+1 {
+				bound[s.M] = true
+			}
+			prevBinding = i
+		}
+	}
+	return out
+}
+
+func variableNamedLikeMember(seg []Step, _ string) bool { return len(shadowedVars(seg)) > 0 }
+
+func variableNamedLikeMemberAsAny(seg []Step, _ string) bool {
+	for _, p := range shadowedVars(seg) {
+		if seg[p.step].M == "Echo" {
+			return true
+		}
+	}
+	return false
+}
+
 var shapeRules = []struct {
 	class    string
 	match    func(seg []Step, base string) bool
 	iterable bool // the rule applies to the expression used as a for iterable only
 }{
+	{"wrong-value/call-after-fields-root-named-like-a-field", callAfterFieldsRootIsField, false},
+	{"clean-failure/call-after-fields-then-member", callAfterFields, false},
+	{"wrong-value/variable-named-like-member-as-any-argument", variableNamedLikeMemberAsAny, false},
+	{"clean-failure/variable-named-like-member", variableNamedLikeMember, false},
 	// x.A().F.B() is evaluated as x.A().B(): the fields between two calls are dropped
 	// (also x[i].F.B() when x is a plain variable, and x.A().C[i].F.B(): evaluated as x[i].B() / x.A().C[i].B())
 	{"wrong-value/fields-dropped-before-call", reRule(`MF+M|(^|[XM]F)XF+M`), false},
